@@ -380,16 +380,27 @@ where
                     self.connection.local_state(),
                     ConnectionState::CloseReceived
                 ) {
+                    // The peer may be gone right behind its close: what can no longer be
+                    // written must not hide what the peer's close said
                     self.outgoing_session_frames.close();
+                    let mut written = Ok(());
                     while let Some(frame) = self.outgoing_session_frames.recv().await {
-                        self.on_outgoing_session_frames(frame).await?;
+                        if written.is_ok() {
+                            written = self.on_outgoing_session_frames(frame).await.map(|_| ());
+                        }
                     }
-
-                    self.connection
-                        .send_close(&mut self.transport, None)
-                        .await?;
+                    if written.is_ok() {
+                        written = self
+                            .connection
+                            .send_close(&mut self.transport, None)
+                            .await
+                            .map_err(Into::into);
+                    }
+                    result?;
+                    written?;
+                } else {
+                    result?;
                 }
-                result?;
             }
             FrameBody::Empty => {
                 // do nothing, IdleTimeout is tracked by Transport
@@ -558,7 +569,10 @@ where
                 Ok(Running::Stop)
             }
             ConnectionInnerError::RemoteClosed | ConnectionInnerError::RemoteClosedWithError(_) => {
-                self.close_connection(None).await
+                // Answering is best effort: the peer's close is why the connection stops, also
+                // when the answer can no longer be written
+                let _ = self.close_connection(None).await;
+                Ok(Running::Stop)
             }
         }
     }
